@@ -207,6 +207,23 @@ Theorem C08_gate_first :
 Proof. exact gate_first. Qed.
 Print Assumptions C08_gate_first.
 
+(** Left-over items after a canonical block's declared fields (e.g. the whole following block, after a
+    one-bit change of the array head 0x86 -> 0x87) or a CRC item left over after the CRC type became 0:
+    [arity_verdict bs = 1] says that some canonical block array of the received octets has an item count
+    other than 5 (CRC type 0) / 6 (otherwise).  No reading of the model - strict or lax - decodes such
+    octets: the bundle is undecodable, hence dropped.  (The implementation relies for this on an exception
+    out of scapy's payload dissection; the check compares on every structural corruption.) *)
+Theorem C08_leftover_items_rejected : forall bs : bytes,
+  arity_verdict bs = 1 -> decode_bundle bs = None /\ lax_decode_bundle bs = None.
+Proof. exact arity_bad_rejected. Qed.
+Print Assumptions C08_leftover_items_rejected.
+
+Example C08_leftover_items_nonvacuous :
+  arity_verdict arity_witness_octets = 2 /\ strict_verdict arity_witness_octets = (2, true)
+  /\ arity_verdict (xor_at 54 [1] arity_witness_octets) = 1
+  /\ arity_verdict (xor_at 60 [2] arity_witness_octets) = 1.
+Proof. exact arity_bad_nonvacuous. Qed.
+
 (** * The full statement is false for the implementation as it is *)
 
 (** A valid bundle (all blocks CRC-16, payload " 0e") and ONE flipped bit (0x20 of octet 44, the head of
